@@ -64,7 +64,7 @@ class MethodIO:
 
 class TH:
     def __init__(self, dut, provided, required=None, capture=(), extra_inputs=(), extra_outputs=(),
-                 extra_submodules=None, manager=None):
+                 extra_submodules=None, manager=None, capture_funcs=("elaborate",)):
         """provided: {name: Method of the dut}; required: {name: Adapter whose iface the dut calls}."""
         required = required or {}
         self.dut = dut
@@ -83,7 +83,7 @@ class TH:
         from .hw import Recorder
 
         # elaborate once here (HW would do the same) to get the adapters, then hand the fragment over
-        rec = Recorder(capture)
+        rec = Recorder(capture, capture_funcs)
         with rec:
             frag = Fragment.get(self.top, None)
         for a in list(self.top_inner.ad.values()) + list(required.values()):
@@ -110,8 +110,8 @@ class TH:
         for name, ad in required.items():
             self.m[name] = MethodIO(self.hw, ad, ad.iface)
 
-    def locals_of(self, obj):
-        return self.hw.rec.locals_of(obj)
+    def locals_of(self, obj, func="elaborate"):
+        return self.hw.rec.locals_of(obj, func)
 
     def log_records(self, min_level=None):
         """Hardware log records registered by the elaborated library code: [(record, z3 Bool trigger)].
